@@ -123,6 +123,9 @@ class watch(object):
             def make(orig=orig, label=label, corrupt=corrupt):
                 def wrapped(*a, **k):
                     fire = INJ.point("step:%s" % label)
+                    if fire and corrupt is not None and getattr(corrupt, "pre", False):
+                        a, k = corrupt(a, k)          # what the step is about to write is damaged
+                        return orig(*a, **k)
                     r = orig(*a, **k)
                     if fire and corrupt is not None:
                         r = corrupt(r)
